@@ -1,4 +1,5 @@
 import Mixin.Model.Requeue
+import Mixin.Facts.ExpectedC24
 /-!
   C24 — retiring a local proposal never loses a pending transaction; a transaction owned by a
   still-active proposal is not re-queued.
@@ -325,6 +326,62 @@ theorem active_not_requeued_counterexample :
 /-- one nanosecond earlier the guard still holds: the duplicate is refused and nothing is installed -/
 example : (announce roundGap (announce roundGap st0 s1 0 5) { s2 with ts := T0 + roundGap - 1 } 1 5).aggs.map (·.snap.hash)
     = [1001] := by decide
+
+/-! ### deferred and abandoned self announcements -/
+
+/-- **deferred_no_loss**: a self proposal that `prepareAnnouncement` defers (not after the round
+    timestamp, after the 4/5 round-gap cutoff, or across the UTC day boundary of the open round)
+    installs nothing and every pending transaction of its batch is eligible afterwards. -/
+theorem deferred_no_loss (gap : Nat) (st : St) (s : Snap) (vid base roundTs cft : Nat)
+    (hdef : s.ts ≤ roundTs ∨ s.ts > cft + gap * 4 / 5 ∨ s.ts / oneDay ≠ cft / oneDay) :
+    (announceAt gap st s vid base roundTs cft).aggs = st.aggs ∧
+    (announceAt gap st s vid base roundTs cft).vers = st.vers ∧
+    ∀ x ∈ s.txs, pending st x → x ∈ (announceAt gap st s vid base roundTs cft).queue := by
+  have h : announceAt gap st s vid base roundTs cft = requeue st s.txs := by
+    unfold announceAt
+    by_cases h1 : s.ts ≤ roundTs
+    · rw [if_pos h1]
+    · rw [if_neg h1]
+      by_cases h2 : s.ts > cft + gap * 4 / 5
+      · rw [if_pos h2]
+      · rw [if_neg h2]
+        rcases hdef with h | h | h
+        · exact absurd h h1
+        · exact absurd h h2
+        · rw [if_pos h]
+  rw [h]
+  exact ⟨rfl, rfl, fun x hx hp => (requeue_mem st s.txs x).mpr (Or.inr ⟨hx, hp⟩)⟩
+
+/-- a proposal refused by the duplicate guard hands back every pending transaction that no
+    existing proposal guards -/
+theorem guarded_no_loss (gap : Nat) (st : St) (s : Snap) (vid base : Nat)
+    (hg : s.txs.any (guarded gap st.vers s) = true) :
+    (announce gap st s vid base).aggs = st.aggs ∧
+    ∀ x ∈ s.txs, guarded gap st.vers s x = false → pending st x → x ∈ (announce gap st s vid base).queue := by
+  unfold announce
+  rw [if_pos hg]
+  refine ⟨rfl, fun x hx hgx hp => (requeue_mem st _ x).mpr (Or.inr ⟨?_, hp⟩)⟩
+  rw [List.mem_filter]
+  exact ⟨hx, by simp [hgx]⟩
+
+/-- **abandoned_no_loss**: a self proposal abandoned at the sanity check because one of its
+    transactions was finalized in another snapshot hands every pending sibling back -/
+theorem abandoned_no_loss (st : St) (txs : List Nat) (st' : St)
+    (h : sanityFinalizedElsewhere st txs = some st') :
+    st'.aggs = st.aggs ∧ ∀ x ∈ txs, pending st x → x ∈ st'.queue := by
+  unfold sanityFinalizedElsewhere at h
+  split at h
+  · split at h
+    · cases h
+      exact ⟨rfl, fun x hx hp => (requeue_mem st _ x).mpr (Or.inr ⟨hx, hp⟩)⟩
+    · cases h
+  · cases h
+
+/-- the day-boundary deferral: round opened one second before midnight, proposal 1.5 s later -/
+example : (announceAt roundGap { bodies := [1, 2] } { hash := 1001, round := 2, ts := 20000 * oneDay + 500000000, txs := [1, 2] }
+    1001 5 (20000 * oneDay - 1000000001) (20000 * oneDay - 1000000000)).queue = [1, 2] := by decide
+
+example : (sanityFinalizedElsewhere { bodies := [1, 2], finalized := [1] } [1, 2]).map (·.queue) = some [2] := by decide
 
 /-! ### round reset -/
 
